@@ -15,10 +15,15 @@ import (
 type PoolCfg struct {
 	Cap, Buf            int // job queue: channel capacity, overflow maximum
 	Max, StandBy, Batch int
+	Jam                 time.Duration // workerJamDuration; 0: one hour (never reached within a run)
 }
 
 func (c PoolCfg) String() string {
-	return fmt.Sprintf("q%d+%d/max%d/standby%d/batch%d", c.Cap, c.Buf, c.Max, c.StandBy, c.Batch)
+	s := fmt.Sprintf("q%d+%d/max%d/standby%d/batch%d", c.Cap, c.Buf, c.Max, c.StandBy, c.Batch)
+	if c.Jam > 0 {
+		s += fmt.Sprintf("/jam%v", c.Jam)
+	}
+	return s
 }
 
 // NewPool builds a pool whose settings are all in place before its spawn loop is first woken
@@ -34,6 +39,9 @@ func NewPool(c PoolCfg, panicHandler func(interface{})) *worker.DefaultWorkerPoo
 	p.SetWorkerSizeMaximum(c.Max)
 	p.SetWorkerExpiryDuration(time.Hour)
 	p.SetWorkerJamDuration(time.Hour)
+	if c.Jam > 0 {
+		p.SetWorkerJamDuration(c.Jam)
+	}
 	p.SetScheduleRetryInterval(2 * time.Millisecond)
 	p.SetWorkerSizeStandBy(c.StandBy)
 	return p
